@@ -426,9 +426,6 @@ func c13Scenarios(tier string) []engine.Scenario {
 	}
 	// accounts that already have a factor: disabling, re-keying, from every session kind
 	for _, e500 := range []bool{false, true} {
-		if e500 && tier != "thorough" {
-			continue
-		}
 		sc := engine.Scenario{
 			Name: fmt.Sprintf("enrolled,err500=%v", e500), Depth: depth + 1,
 			Cfg: world.Config{Modules: []string{"auth", "remember", "logout", "totp2fa", "sms2fa", "recovery"}, Err500: e500},
